@@ -75,6 +75,8 @@ def conc_scenarios(raws, tier, seed):
                        "fieldPaths": ["spec.rev"], "customize": bool(raw.get("customize")), "workers": 4 + (rep % 3) * 2}
                 if raw.get("ssa"):
                     cfg["apply"] = "ssa"
+                if raw.get("rolling") and rep % 2 == 1:
+                    hook = dict(hook, sync=dict(hook["sync"], failBurst=3))
                 out.append({"id": "conc-%d-%d-%s" % (ri, rep, method), "fam": "conc", "cfg": cfg, "objs": objs, "hook": hook, "sched": sched, "expect": {}})
     return out
 
